@@ -144,3 +144,39 @@ def _setup(b, case):
 c.setup(_setup)
 c.crosscheck = False
 c.ensures('each-knows-its-own-routines', 'f in result[0] and not (g in result[0]) and g in result[1] and not (f in result[1]) and disjoint(result[2], result[3])')
+
+
+# ---- copies: a copy shares nothing mutable with its original (the VM works on copies so that a run never writes into the program)
+c = contract('bardolph/lib/time_pattern.py', 'copy_is_separate', serves=['C17', 'C11', 'C01', 'C10'], name='lemma:TimePattern.copy() shares nothing with the original', src='''
+def copy_is_separate(p, q):
+    p.union(q)
+    d = p.copy()
+    return (p, d)
+''')
+def _setup(b, case):
+    tp = b.cls('bardolph.lib.time_pattern', 'TimePattern')
+    fs = b.I.call(tp.attrs['from_string'], ['12:30'], {})
+    other = b.I.call(tp.attrs['from_string'], ['1*:*5'], {})
+    return {'p': fs, 'q': other}
+c.setup(_setup)
+# (the alternative patterns themselves may be the same objects: nothing ever writes into an alternative)
+c.ensures('own-containers', 'result[1]._alternatives is not result[0]._alternatives and result[1]._hour_set is not result[0]._hour_set '
+          'and result[1]._minute_set is not result[0]._minute_set and result[1].match(12, 30) and result[1].match(11, 15) and not result[1].match(12, 31)')
+
+for cname, ctor in (('ColorMatrix', 'ColorMatrix.new_from_constant(2, 3, [1, 2, 3, 4])'), ('Routine', 'Routine("r")'), ('VmIo', None), ('VmMath', None), ('VmDiscover', None)):
+    path = {'ColorMatrix': 'bardolph/controller/color_matrix.py', 'Routine': 'bardolph/controller/routine.py', 'VmIo': 'bardolph/vm/vm_io.py',
+            'VmMath': 'bardolph/vm/vm_math.py', 'VmDiscover': 'bardolph/vm/vm_discover.py'}[cname]
+    if ctor is None:
+        ctor = '%s(CallStack(), Registers())' % cname
+        pre = '    from bardolph.vm.call_stack import CallStack\n    from bardolph.vm.machine import Registers\n'
+    else:
+        pre = ''
+    c = contract(path, 'two_instances', serves=['C17', 'C15' if cname == 'ColorMatrix' else 'C01'], name='lemma:two %s objects share no state' % cname, src='''
+def two_instances():
+%s    a = %s
+    b = %s
+    return (a, b)
+''' % (pre, ctor, ctor))
+    c.setup(lambda b, case: (_env(b), {})[1])
+    c.crosscheck = False
+    c.ensures('no-mutable-object-in-common', 'disjoint(result[0], result[1])')
